@@ -10,6 +10,7 @@ CONSTANTS
   K = 6
   TailLen = 2
   Biased = FALSE
+  Focus = FALSE
   GenFaults <- F1
 VIEW GenView
 CONSTRAINT GenBound
